@@ -21,11 +21,32 @@ theorem attach_error (b : BState) (n : Node) :
   repeat' split
   all_goals first | exact Or.inl rfl | exact Or.inr rfl
 
+/-- Leaving a CDATA section touches the stack only. -/
+theorem leaveCdata_error (b : BState) : b.leaveCdata.error = b.error := by
+  unfold BState.leaveCdata
+  repeat' split
+  all_goals rfl
+
+theorem leaveCdata_root (b : BState) : b.leaveCdata.root = b.root := by
+  unfold BState.leaveCdata
+  repeat' split
+  all_goals rfl
+
 theorem buildStep_error (main : List Lang) (emb : Nat → Bytes → Option Tree) (b : BState) (e : Event) :
     (buildStep main emb b e).error = b.error ∨ (buildStep main emb b e).error = some E.internal := by
   unfold buildStep
-  repeat' split
-  all_goals first | exact Or.inl rfl | exact Or.inr rfl | exact attach_error _ _
+  split
+  · exact Or.inl rfl
+  · cases e with
+    | startElt n attrs =>
+      dsimp only
+      split
+      · exact Or.inr rfl
+      · exact Or.inl (leaveCdata_error b)
+    | _ =>
+      dsimp only
+      repeat' split
+      all_goals first | exact Or.inl rfl | exact Or.inr rfl | exact attach_error _ _
 
 theorem run_error (main : List Lang) (emb : Nat → Bytes → Option Tree) : ∀ (es : List Event) (b : BState),
     (b.error = none ∨ b.error = some E.internal) →
